@@ -294,6 +294,87 @@ theorem restore_only_shifts_activeAt (s : RuleSt) (ts tol grace : Int) (series :
         · rfl
         · split <;> rfl
 
+/-! ### ALERTS / ALERTS_FOR_STATE series -/
+
+/-- The alerts whose `ALERTS` / `ALERTS_FOR_STATE` samples an evaluation emits are exactly the entries
+    that are active (pending or firing) after it. -/
+theorem series_reflect_state (c : Cfg) (ts : Int) (k : Labels) (v : Option Nat) (old : Option Alert)
+    (hinv : InvO old) :
+    (perKey c ts k v old).emitted = (perKey c ts k v old).kept.filter (fun a => a.state != .inactive) := by
+  cases old with
+  | none =>
+    cases v with
+    | none => simp [perKey, merge1, Option.filter]
+    | some v =>
+      simp only [perKey, merge1, advance, Option.isSome_some, if_true]
+      rw [settle_pending _ _ _ (by simp [fresh])]
+      by_cases hh : c.hold ≤ 0
+      · simp [hh, fresh, Option.filter]
+      · simp [hh, fresh, Option.filter]
+  | some a =>
+    have hi : Inv a := hinv a rfl
+    unfold Inv at hi
+    cases v with
+    | some v =>
+      cases hst : a.state with
+      | inactive =>
+        simp only [perKey, merge1, hst, advance, Option.isSome_some, if_true, ne_eq, not_true_eq_false, if_false]
+        rw [settle_pending _ _ _ (by simp [fresh])]
+        by_cases hh : c.hold ≤ 0
+        · simp [hh, fresh, Option.filter]
+        · simp [hh, fresh, Option.filter]
+      | pending =>
+        simp only [perKey, merge1, hst, advance, Option.isSome_some, if_true, ne_eq]
+        simp only [reduceCtorEq, not_false_eq_true, if_true]
+        rw [settle_pending _ _ _ (by simp [hst])]
+        by_cases hh : ts - a.activeAt ≥ c.hold
+        · simp [hh, hst, Option.filter]
+        · simp [hh, hst, Option.filter]
+      | firing =>
+        simp only [perKey, merge1, hst, advance, Option.isSome_some, if_true, ne_eq]
+        simp only [reduceCtorEq, not_false_eq_true, if_true]
+        rw [settle_firing _ _ _ (by simp [hst])]
+        by_cases hh : ts - a.activeAt ≥ c.hold
+        · simp [hh, hst, Option.filter]
+        · simp [hh, hst, Option.filter]
+    | none =>
+      cases hst : a.state with
+      | pending => simp [perKey, merge1, advance, hst, Option.filter]
+      | inactive =>
+        have hr : a.resolvedAt.isSome := hi.mp hst
+        obtain ⟨r, hr⟩ := Option.isSome_iff_exists.mp hr
+        by_cases hh : ts - r > resolvedRetention
+        · simp [perKey, merge1, advance, hst, hr, hh, Option.filter]
+        · simp [perKey, merge1, advance, hst, hr, hh, Option.filter]
+      | firing =>
+        have hr : a.resolvedAt = none := by
+          cases h : a.resolvedAt with
+          | none => rfl
+          | some r => have := hi.mpr (by simp [h]); simp [hst] at this
+        by_cases hk : c.kff > 0
+        · by_cases hw : ts - a.keepFiringSince.getD ts < c.kff
+          · simp only [perKey, merge1, advance, hst, hk, hw, hr, Option.isSome_none]
+            simp only [and_self, if_true, Bool.false_eq_true, if_false, reduceCtorEq, decide_false, Bool.or_false,
+              not_true_eq_false, and_false, ne_eq, not_false_eq_true]
+            rw [settle_firing _ _ _ (by simp [hst])]
+            by_cases hh : ts - a.activeAt ≥ c.hold
+            · simp [hh, hst, Option.filter]
+            · simp [hh, hst, Option.filter]
+          · simp [perKey, merge1, advance, hst, hk, hw, hr, Option.filter]
+        · simp [perKey, merge1, advance, hst, hk, hr, Option.filter]
+
+/-- `ALERTS` / `ALERTS_FOR_STATE` are written only once the 'for' state has been restored. -/
+theorem series_only_after_restore (s : RuleSt) (ts qoff limit : Int) (res : List Sample) (vec : List OutSample)
+    (hok : (eval s ts qoff limit (some res)).2 = .ok vec) (hr : s.restored = false) : vec = [] := by
+  unfold eval at hok
+  cases hc : collect s.cfg res with
+  | none => simp [hc] at hok
+  | some rs =>
+    simp only [hc] at hok
+    split at hok
+    · simp at hok
+    · simp [hr] at hok; exact hok
+
 /-! ### Notifications -/
 
 /-- Pending alerts are never sent; an alert resolved after its last notification is always sent. -/
